@@ -88,6 +88,46 @@ CHECKS["C05"] = {
 }
 
 
+CHECKS["C06"] = {
+    "level": "model_checking",
+    "technique": "stateless deviation-bounded exploration of segmentation over an exhaustively enumerated body x framing space, ground-truth oracle, on the real code",
+    "level_text": "Every body of length 0..4 (quick) / 0..5 (thorough) over {CR, LF, NUL, a, 0, ;} plus 12 look-alike texts, under every framing (request CL/chunked, response "
+                  "CL/chunked/close-delimited, every composition into chunk sizes, extension/trailer variants for the look-alikes), followed by a second message, is delivered "
+                  "uncut, with every single cut, every pair of cuts inside the framing region and byte-by-byte; the bytes handed to body callbacks must equal the body, the next "
+                  "transaction must be the follower, entity_len/message_len must match, and the M-acct monitor (entity_len = delivered bytes, end marker before COMPLETE) runs "
+                  "on every execution. Exhaustive within these bounds.",
+    "level_note": "message_len may include or exclude the trailer section (header comment vs code; both accepted). Followers use methods libhtp knows (an unknown method after a body is "
+                  "documented behaviour of the REQ_FINALIZE probe, not judged here). M-acct also rides on statemc for 'every input'.",
+    "design_ref": "DESIGN.md §6 C06",
+    "rule": "bodies x framings x chunk-size compositions x {uncut, every single cut, every pair in the framing region, 1-byte}; distinct = distinct callback traces per case",
+    "bounds": {"quick": "bodies <=4 over 6 symbols (1555) + 12 look-alikes; ASan pass on bodies <=2", "thorough": "bodies <=5 (9331); ASan pass on bodies <=3; statemc M-acct micro depth 5"},
+    "mc_explanation": "states = distinct callback traces observed, transitions = data calls executed on the real parser",
+    "assumptions": ["IDS personality", "requests delivered before responses"],
+    "jobs": lambda tier: [J("cutmc", "plain", ["--mode", "body"]),
+                          J("cutmc", "asan", ["--mode", "body", "--maxlen", "2" if tier == "quick" else "3"]),
+                          J("statemc", "plain", ["--alphabet", "micro", "--depth", "4" if tier == "quick" else "5", "--cfg", "0"]),
+                          J("statemc", "plain", ["--alphabet", "macro", "--depth", "5" if tier == "quick" else "6", "--cfg", "0"])],
+}
+
+
+CHECKS["C04"] = {
+    "level": "model_checking",
+    "technique": "exhaustive enumeration of all legal interleavings of two chunked streams (stateless exploration under the documented DATA_OTHER hand-over) on the real code",
+    "level_text": "For N in 1..3 exchanges tagged with unique ids, every framing combination (request none/CL/chunked, response CL/chunked; fixed mixes for N=3), every chunking "
+                  "drawn from {whole, mid first line, after first CRLF, one byte before the end} per message x {message boundary is / is not a chunk boundary}, and EVERY legal "
+                  "interleaving of the two chunk sequences (no byte of response i before the last byte of request i) is executed; exactly N transactions, in order, each carrying "
+                  "request i, response header id i and response body id i; the pipelining indicator is compared with what the schedule implies.",
+    "level_note": "The expected indicator is computed from the schedule alone (first byte of request j offered before the first byte of response j-1). Early responses (response overtaking "
+                  "its request) are outside the statement and not generated.",
+    "design_ref": "DESIGN.md §6 C04",
+    "rule": "framing combos x chunkings x all legal interleavings (DFS over merges); distinct = distinct callback traces",
+    "bounds": {"quick": "N<=2 full product (4 inner cuts x boundary cut), N=3 with 2 inner-cut choices on 3 framing mixes", "thorough": "N=3 with all 4 inner-cut choices on 12 framing mixes (8.3e6 schedules)"},
+    "mc_explanation": "states = distinct callback traces, transitions = data calls; every schedule is executed on the implementation",
+    "assumptions": ["IDS personality", "QUICK_START 2.2.1-2.2.8 hand-over as implemented in mc/hx_run.c"],
+    "jobs": lambda tier: [J("cutmc", "plain", ["--mode", "pair"])] + ([J("cutmc", "asan", ["--mode", "pair", "--maxn", "2"])]),
+}
+
+
 def manifest():
     import json, os
     root = os.path.dirname(os.path.dirname(os.path.abspath(__file__)))
@@ -119,7 +159,7 @@ def manifest():
 
 ENGINES = [
     {"name": "statemc", "path": "mc/statemc.c", "serves_properties": ["C01", "C05", "C09", "C10"], "kind_free_text": "E2: explicit-state BFS over token histories of the real parser, exact canonical state hashing"},
-    {"name": "cutmc", "path": "mc/cutmc.c", "serves_properties": ["C02", "C03"], "kind_free_text": "E1: stateless deviation-bounded explorer of segmentation / generated grammar on the real code"},
+    {"name": "cutmc", "path": "mc/cutmc.c", "serves_properties": ["C02", "C03", "C04", "C06"], "kind_free_text": "E1: stateless deviation-bounded explorer of segmentation / generated grammar on the real code"},
 ]
 
 if __name__ == "__main__":
